@@ -106,6 +106,31 @@ theorem upgrade_after_chain (a : Alloc) (ch : Chain) (p q : PtrVal) (h : apply a
   · intro hl
     simp [step_of_applicable happ, conv, hl, Alloc.upgradable]
 
+/-! ### `ptr_eq` -/
+
+/-- `ptr_eq` answers "same allocation, same address" and nothing else: it is insensitive to the
+    metadata carried by wide pointers (slice length, vtable) and to every tag (strength, kind,
+    static type) of either argument. -/
+theorem ptr_eq_ignores_metadata (p q : PtrVal) :
+    (samePtr p q = true ↔ p.obj = q.obj ∧ p.off = q.off) ∧
+    (∀ (w1 w2 t1 t2 : Bool) (pm1 pm2 : PMeta) (ty1 ty2 : Ty) (c1 c2 : Meta),
+      samePtr { p with weak := w1, thin := t1, pmeta := pm1, ty := ty1, carried := c1 }
+            { q with weak := w2, thin := t2, pmeta := pm2, ty := ty2, carried := c2 } = samePtr p q) := by
+  constructor
+  · simp [samePtr]
+  · intros; rfl
+
+/-- Any two pointers obtained by any chains from allocating calls that returned the same block
+    — the same call, or two `ZstCache::alloc` calls that both alias the cache's block, whatever
+    their types, lengths or vtables — are `ptr_eq`; from different blocks they are not. -/
+theorem aliasing_results_ptr_eq (a1 a2 : Alloc) (ch1 ch2 : Chain) (q1 q2 : PtrVal)
+    (h1 : apply a1 ch1 (initPtr a1) = some q1) (h2 : apply a2 ch2 (initPtr a2) = some q2) :
+    samePtr q1 q2 = decide (a1.id = a2.id) := by
+  obtain ⟨o1, f1, _⟩ := from_alloc a1 ch1 q1 h1
+  obtain ⟨o2, f2, _⟩ := from_alloc a2 ch2 q2 h2
+  simp only [samePtr, o1, o2, f1, f2, beq_self_eq_true, Bool.and_true]
+  by_cases h : a1.id = a2.id <;> simp [h]
+
 /-! ### Metadata -/
 
 /-- Whatever chain led to it, a pointer derived from the allocating call's result dereferences
@@ -274,6 +299,18 @@ theorem zst_shared_alias (c : Cache) (n1 n2 s1 a1 s2 a2 : Nat)
     (c.alloc n1 s1 a1).obj = (c.alloc n2 s2 a2).obj := by
   simp [Cache.alloc, h1, h2]
 
+/-- In particular: two qualifying requests to one `ZstCache` — of any two types, e.g. two
+    zero-sized types later unsized to the same `dyn Tr` (different vtables) or `[(); 2]` and
+    `[(); 3]` unsized to `[()]` (different lengths) — give `ptr_eq` pointers after any chains. -/
+theorem zst_cache_aliases_ptr_eq (c : Cache) (n1 n2 s1 al1 s2 al2 : Nat) (t1 t2 : Target)
+    (l1 l2 d1 d2 : Bool) (hs1 : zstShared s1 al1 c.maxAlign = true)
+    (hs2 : zstShared s2 al2 c.maxAlign = true) (ch1 ch2 : Chain) (q1 q2 : PtrVal)
+    (h1 : apply ⟨(c.alloc n1 s1 al1).obj, t1, l1, d1⟩ ch1 (initPtr ⟨(c.alloc n1 s1 al1).obj, t1, l1, d1⟩) = some q1)
+    (h2 : apply ⟨(c.alloc n2 s2 al2).obj, t2, l2, d2⟩ ch2 (initPtr ⟨(c.alloc n2 s2 al2).obj, t2, l2, d2⟩) = some q2) :
+    samePtr q1 q2 = true := by
+  rw [aliasing_results_ptr_eq _ _ ch1 ch2 q1 q2 h1 h2]
+  exact decide_eq_true (zst_shared_alias c n1 n2 s1 al1 s2 al2 hs1 hs2)
+
 /-- The value handed to `alloc` is destructed exactly once in either case: at once when the
     shared pointer is returned (the shared block holds no `T`), with its block otherwise. -/
 theorem zst_value_destructed_once (c : Cache) (next size align : Nat) :
@@ -378,6 +415,13 @@ example : (((Arena.new 1).run condemnedDemo).ctx.heap.get 0).map (fun o => (o.li
     some (true, .whiteWeak) := by decide
 example : (((Arena.new 1).run condemnedDemo).ctx.upgrade 0).2 = false := by decide
 example : scenarioState .sweep .ww = (true, true) := rfl
+
+-- `[(); 2]` and `[(); 3]` from one cache, unsized to `[()]`: lengths 2 and 3, still `ptr_eq`
+example :
+    (do let q1 ← apply ⟨7, .array 2, true, false⟩ [.unsize] (initPtr ⟨7, .array 2, true, false⟩)
+        let q2 ← apply ⟨7, .array 3, true, false⟩ [.asThin, .unsize, .ptr] (initPtr ⟨7, .array 3, true, false⟩)
+        pure (q1.carried, q2.carried, samePtr q1 q2)) = some (.len 2, .len 3, true) := by decide
+example : samePtr (initPtr ⟨7, .zst 8, true, false⟩) (initPtr ⟨8, .zst 8, true, false⟩) = false := by decide
 
 -- the ZstCache rule on concrete alignments
 example : zstShared 0 8 16 = true ∧ zstShared 0 16 16 = true ∧ zstShared 0 32 16 = false ∧
